@@ -24,7 +24,7 @@ from gsv import rulesym as R
 from gsv.checks import c03, c11, c12
 from gsv.colsym import SymArray
 
-ORDER_CONDS = ["check_eg", "check_ehe", "check_sn", "check_bg", "check_wthh", "check_fg_order"]
+ORDER_CONDS = ["check_eg", "check_ehe", "check_sn", "check_bg", "check_wthh"]
 
 
 def perm_arr(a, pi):
@@ -134,7 +134,9 @@ def run(tier):
     n = 3 if tier == "quick" else 4
     # (i) groupings -- CrossHair
     excl = GC.known_fg_classes(ck, "C01")
-    res = GC.run_conditions(ck, "C01", n, ORDER_CONDS, 150 if tier == "quick" else 1500, excl, ["check_eg_twin", "check_sn_twin", "check_fg_twin"])
+    from gsv import fgsym
+    fgsym.run_obligations(ck, "C01", n, excl, with_orders=True, with_relabel=False, sep_na=None, timeout=300)
+    res = GC.run_conditions(ck, "C01", n, ORDER_CONDS, 150 if tier == "quick" else 1500, excl, ["check_eg_twin", "check_sn_twin"])
     for cond, (verdict, cex, secs, tail) in sorted(res.items()):
         ck.obligations += 1
         ck.nontrivial.add(cond)
@@ -182,6 +184,9 @@ def replay(path):
         rep = c12.replay_cex(d["cond"], cex, d["n"])
         print(rep)
         return 1 if rep is True else 0
+    if d.get("kind") == "fgsym":
+        from gsv import fgsym
+        return 1 if fgsym.reproduces(d["name"], d["vals"], d["n"], d.get("sep_na")) else 0
     if d.get("kind") == "fg":
         bad, pi = GC.fg_order_dependent(d["w"])
         print(bad, pi)
